@@ -78,6 +78,11 @@ class Tr:
                 r = 'len_' + self.ref(a[0])
                 self.params.add(r)
                 return r
+            if f == 'len' and len(a) == 1 and isinstance(a[0], ast.Call) and not a[0].args \
+                    and isinstance(a[0].func, ast.Attribute) and self.ref(a[0].func.value) is not None:
+                r = f'len_{self.ref(a[0].func.value)}_{a[0].func.attr}'     # len(x.tobytes())
+                self.params.add(r)
+                return r
             if f in ('bytes_to_int', 'bytes_to_signed_int') and len(a) == 1 and isinstance(a[0], ast.Subscript) \
                     and isinstance(a[0].slice, ast.Slice):
                 lo, hi = a[0].slice.lower, a[0].slice.upper          # a 4-byte header word: its offset
@@ -389,6 +394,12 @@ SPEC = [
     ('r_header_blocks', 'read.py', 'SgzReader.__init__', ('assign_attr', 'n_header_blocks', 0), 'Nat'),
     ('r_tracecount', 'read.py', 'SgzReader.__init__', ('assign_attr', 'tracecount', 0), 'Nat'),
     ('r_version', 'read.py', 'SgzReader.get_file_version', ('return', 0, 0), 'Nat'),
+    # headers.py: where a reader looks for stored array k; which table rows are constants
+    ('hdr_offset', 'headers.py', 'HeaderwordInfo.get_header_dict', ('callarg', 'FileOffset', 0, 0), 'Nat'),
+    ('hdr_invariant', 'headers.py', 'HeaderwordInfo.get_header_dict', ('iftest', 0), 'Prop'),
+    # footer writers: padding of one array
+    ('footer_pad_segy', 'conversion.py', 'SeismicFileConverter.write_headers', ('callarg', 'bytes', 0, 0), 'Int'),
+    ('footer_pad_numpy', 'conversion.py', 'NumpyConverter.write_headers', ('callarg', 'bytes', 0, 0), 'Int'),
     # loader.py, 2D
     ('trace_range_offset', 'loader.py', 'SgzLoader2d.read_and_decompress_trace_range', ('assign', 'block_offset', 0), 'Nat'),
     ('trace_range_length', 'loader.py', 'SgzLoader2d.read_and_decompress_trace_range', ('callarg', '_get_compressed_bytes', 0, 1), 'Nat'),
